@@ -31,7 +31,7 @@ OBLIGATIONS = {"poly:star": 20, "poly:selfintersecting": 20, "poly:lattice": 20,
                "pt:outside-bbox": 100, "pt:level-with-vertex": 200, "meta": 100,
                "cells_inside_polygon": 10, "inside-buffer": 50, "options": 50,
                "poly:far-from-origin": 20, "poly:far-open>3": 10,
-               "cells:grid-moved-after-use": 20}
+               "cells:grid-moved-after-use": 20, "cells:polygon-at-one-end": 3}
 
 
 def P():
@@ -89,7 +89,14 @@ def gen_polygon(rng, it):
         tag = "poly:selfintersecting"
     else:
         poly = rng.integers(-4, 5, size=(nv, 2)).astype(float)
-        if rng.random() < 0.5:
+        if it % 9 == 2:
+            # axis-aligned square [a, b] x [a, b]: only two distinct coordinate values
+            a, b = sorted(rng.choice(np.arange(-4, 6), size=2, replace=False))
+            poly = np.array([[a, a], [b, a], [b, b], [a, b]], dtype=float)
+            poly = np.roll(poly, int(rng.integers(0, 4)), axis=0)
+            if rng.random() < 0.5:
+                poly = poly[::-1].copy()
+        elif rng.random() < 0.5:
             # rectilinear-ish: alternate horizontal / vertical moves
             pts = [poly[0]]
             for i in range(1, nv):
@@ -292,6 +299,17 @@ def run(ctx):
         run_case(ctx, case)
         if it0 % 25 == 0:
             ctx.sample({"polygon": poly, "points": pts[:5], "tag": tag})
+        if it0 % 12 == 6:
+            # tall and wide grids with the polygon confined to one end
+            nr_, nc_ = [(12, 3), (9, 2), (8, 1), (3, 12), (1, 8)][(it0 // 12) % 5]
+            unit = np.array([[0.2, 0.1], [0.9, 0.3], [0.5, 0.95]])
+            if nr_ > nc_:       # top end of a tall grid
+                tri = unit * np.array([nc_, 1.5]) + np.array([0.0, nr_ - 1.8])
+            else:               # right end of a wide grid
+                tri = unit * np.array([1.5, nr_]) + np.array([nc_ - 1.8, 0.0])
+            ctx.tag("cells:polygon-at-one-end")
+            run_cells_case(ctx, {"kind": "cells", "polygon": tri, "nrows": nr_,
+                                 "ncols": nc_, "xll": 0.0, "yll": 0.0, "csz": 1.0})
         if it0 % 4 == 0:
             poly2 = rng.integers(0, 9, size=(int(rng.integers(3, 9)), 2)).astype(float)
             off = np.array(FAR[(it0 // 8) % len(FAR)]) if it0 % 8 == 0 else np.zeros(2)
